@@ -1,6 +1,84 @@
-(* Props/C12.v — property theorems only (in progress). *)
+(* Props/C12.v — property theorems only; proofs in Proofs/C12Nonce.v, Proofs/FrameBase.v. *)
 From Coq Require Import List NArith.
-From Cedar Require Import Lib.Bytes Lib.Sym Model.Frame.
-Theorem C12_seal_inj : forall k n a p k' n' a' p', seal k n a p = seal k' n' a' p' -> k = k' /\ n = n' /\ a = a' /\ p = p'.
-Proof. exact seal_inj. Qed.
-Print Assumptions C12_seal_inj.
+From Cedar Require Import Lib.Bytes Lib.Sym gen.Consts Model.Frame Model.FrameSpec Proofs.FrameBase Proofs.C12Nonce.
+Import ListNotations.
+Local Open Scope N_scope.
+
+(* No (key, nonce) pair is used twice in a direction: for EVERY sequence of sender operations
+   (SendMessage, SendPartialMessage, WriteMessage, EndMessage, StartMessage, PutSecret,
+   SetCryptoMode on/off; any sizes) from ANY starting state whose counter is within range
+   (fresh after SetSymmetricKey, or imported with any counter), the protected frames emitted
+   carry pairwise distinct (key, nonce) pairs. *)
+Theorem C12_nonce_unique :
+  forall (ops : list sop) (s s' : stream) (es : list N) (fs : list frame),
+    enc_ctr s <= CounterGuard -> run_sops s ops = (s', es, fs) -> NoDup (key_nonces fs).
+Proof. exact nonce_unique. Qed.
+Print Assumptions C12_nonce_unique.
+
+(* The counter never decreases and never passes the guard 2^32-1 ... *)
+Theorem C12_no_wrap :
+  forall (ops : list sop) (s s' : stream) (es : list N) (fs : list frame),
+    enc_ctr s <= CounterGuard -> run_sops s ops = (s', es, fs) ->
+    enc_ctr s <= enc_ctr s' /\ enc_ctr s' <= CounterGuard.
+Proof. exact counter_never_wraps. Qed.
+Print Assumptions C12_no_wrap.
+
+(* ... because an encrypting stream whose counter has reached the guard refuses to send. *)
+Theorem C12_refuses_at_guard :
+  forall (s : stream) (d : bytes) (fl : N),
+    enc_active s = true -> enc_ctr s = CounterGuard -> exists e, snd (send_frame s d fl) = SErr e.
+Proof. exact send_frame_guard. Qed.
+Print Assumptions C12_refuses_at_guard.
+
+(* Wire format of protected frame number c = enc_ctr s: the base IV travels iff c = 0; the
+   ciphertext is the AEAD sealing of the plaintext under the stream key with nonce
+   "base IV with its leading 32-bit word advanced by c" and associated data
+   [send digest || recv digest ||] 5-byte header (digests on the first frame only). *)
+Theorem C12_format :
+  forall (s : stream) (d : bytes) (fl : N) (s' : stream) (f : frame) (k : bytes),
+    key s = Some k -> encrypted s = true -> enc_ctr s <= CounterGuard ->
+    send_frame s d fl = (s', SOk f) ->
+    enc_ctr s < CounterGuard /\ enc_ctr s' = enc_ctr s + 1 /\
+    key s' = key s /\ enc_iv s' = enc_iv s /\ encrypted s' = encrypted s /\
+    f_flag f = fl /\
+    f_body f = Ct (if enc_ctr s =? 0 then Some (enc_iv s) else None)
+                 (seal k (nonce_of (enc_iv s) (enc_ctr s))
+                    (aad_send s (hdr_of fl (lenN d + GcmTagSize + (if enc_ctr s =? 0 then GcmTagSize else 0)))) d).
+Proof. exact send_frame_enc. Qed.
+Print Assumptions C12_format.
+
+(* The nonce of frame c determines c (below 2^32), and at c = 0 it is the transmitted IV. *)
+Theorem C12_nonce_injective :
+  forall iv c1 c2, c1 < 4294967296 -> c2 < 4294967296 -> nonce_of iv c1 = nonce_of iv c2 -> c1 = c2.
+Proof. exact nonce_of_inj. Qed.
+Print Assumptions C12_nonce_injective.
+
+(* The paired receiver expects exactly the sender's nonce and associated data. *)
+Theorem C12_receiver_agrees :
+  forall (A B : stream) (k hdr d : bytes),
+    paired A B -> key A = Some k ->
+    decrypt B k hdr (Ct (if enc_ctr A =? 0 then Some (enc_iv A) else None)
+                        (seal k (nonce_of (enc_iv A) (enc_ctr A)) (aad_send A hdr) d)) =
+      (upd_recv B (enc_iv A) (enc_ctr A + 1) true
+         (fin_dg (fin_recv_aad B) (send_dg B)) (fin_dg (fin_recv_aad B) (recv_dg B)), SOk d).
+Proof. exact decrypt_sealed. Qed.
+Print Assumptions C12_receiver_agrees.
+
+(* All-zero digest for a direction in which nothing was sent in the clear. *)
+Theorem C12_zero_digest_unused_direction :
+  forall s k iv s', set_key s k iv = SOk s' ->
+    (dg_final (send_dg s) = None -> dg_written (send_dg s) = false -> dg_value (send_dg s') = DZero) /\
+    (dg_final (recv_dg s) = None -> dg_written (recv_dg s) = false -> dg_value (recv_dg s') = DZero).
+Proof.
+  intros s k iv s' H. unfold set_key in H. destruct (negb (lenN k =? KeyLen)); [discriminate|].
+  injection H as <-. cbn [send_dg recv_dg]. unfold dg_finalize, dg_value. cbn [dg_final dg_written].
+  split; intros H1 H2; rewrite H1, H2; reflexivity.
+Qed.
+Print Assumptions C12_zero_digest_unused_direction.
+
+(* non-vacuity: a concrete keyed stream sends three frames with distinct nonces *)
+Example C12_example :
+  let s := match set_key new_stream (repeat x01 32) (repeat x07 16) with SOk s => s | SErr _ => new_stream end in
+  let '(_, es, fs) := run_sops s [OSend [x41]; OSecret [x42]; OWrite [x43]; OEnd] in
+  es = [0; 0; 0; 0] /\ length (key_nonces fs) = 3%nat.
+Proof. vm_compute. split; reflexivity. Qed.
